@@ -234,6 +234,30 @@ CLAIMS = {
         note='Trusted: ' + TB + '. Broadcast/vectorised evaluation, Nyquist '
              'counts and the helical detector height are not decided; R5 is '
              'refutation at witness points, not a proof of coverage.'),
+    'C18': dict(
+        cat='other', ref='DESIGN.md section 2, C18',
+        tech='symbolic interpretation of the reciprocal-grid and '
+             'pre/post-processing formulas with parity case split (exact '
+             'rational identities), cross-site agreement, kernel/'
+             'normalisation comparison of the NumPy and pyFFTW arms by '
+             'linear-form equality, constructor-argument role rule, '
+             'read-after-destroy rule for the FFTW planner, guard '
+             'consistency rule',
+        text='All eight (shift, parity, halfcomplex) cases of the reciprocal'
+             ' grid satisfy the stride identity and agree with the frequency'
+             ' table of dft_postprocess_data and the phase of '
+             'dft_preprocess_data identically in N and the stride; the two '
+             'back-end arms of each transform class apply the same kernel '
+             'direction and power of N for every admissible (sign, '
+             'halfcomplex, field); inverse wiring forwards all options '
+             '(Fourier and wavelet); the planner never runs destructively on'
+             ' an array that is read afterwards; known finding: inconsistent'
+             ' shift guards in dft_preprocess_data.',
+        note='Trusted: ' + TB + '; np.fft normalisation conventions and the '
+             'pyfftw_call(normalise_idft) summary.  Numerical agreement '
+             'with numpy.fft/FFTW, the Gaussian convergence clause and the '
+             'wavelet reconstruction clause are not decided (the latter is '
+             'not applicable: a property of PyWavelets).'),
 }
 
 NOT_YET = 'check not implemented yet in this commit (DESIGN.md section 6 build order)'
